@@ -26,23 +26,28 @@ func genOpts(r *mon.Rand, cfg mon.Config, mode gspec.Mode) gspec.GenOpts {
 		Nest: 3, NestProb: 0.25, State: 0.1,
 		Streamy: true, Keys: 0.3, Renames: 0.1, Passthrough: 0.2, Wide: 0.2,
 		CtrlOnly: 0.2, DataOnly: 0.3, Fields: 0.4,
-		SubModes: []gspec.Mode{gspec.DAG, gspec.Workflow},
+		SubModes: []gspec.Mode{gspec.DAG, gspec.Workflow, gspec.Pregel, gspec.DAG, gspec.Workflow},
 	}
 	return o
 }
 
 // node inventory of a spec tree
 type nodeInfo struct {
-	path  []string // keys from the top level
-	kind  gspec.Kind
-	optTy int
+	path    []string // keys from the top level
+	kind    gspec.Kind
+	optTy   int
+	subMode gspec.Mode // nested graphs: their mode
 }
 
 func inventory(g *gspec.GraphSpec, prefix []string, out *[]nodeInfo) {
 	for i := range g.Nodes {
 		n := &g.Nodes[i]
 		p := append(append([]string(nil), prefix...), n.Key)
-		*out = append(*out, nodeInfo{path: p, kind: n.Kind, optTy: n.OptType})
+		ni := nodeInfo{path: p, kind: n.Kind, optTy: n.OptType}
+		if n.Sub != nil {
+			ni.subMode = n.Sub.Mode
+		}
+		*out = append(*out, ni)
 		if n.Sub != nil {
 			inventory(n.Sub, p, out)
 		}
@@ -66,12 +71,37 @@ type optSpec struct {
 	Paths   [][]string `json:"paths"`   // designated paths (empty: undesignated)
 	Base    int        `json:"base"`    // >=0: derived from shared base option #Base by a further DesignateNode
 	Handler bool       `json:"handler"` // a callback handler instead of a component option
+	// ValTys: ONE compose.Option whose values are of different option types (WithLambdaOption takes ...any):
+	// the type of every value (len == Vals); nil: all values are of type Ty
+	ValTys []int `json:"value_types,omitempty"`
+	// Steps > 0: not a component option but WithRuntimeMaxSteps(Steps), an option for graphs
+	Steps int `json:"max_steps,omitempty"`
 }
 
-func (o optSpec) payloads() []string {
+func (o optSpec) valTy(v int) int {
+	if o.ValTys != nil {
+		return o.ValTys[v]
+	}
+	return o.Ty
+}
+
+// mixed: the option carries values of both option types
+func (o optSpec) mixed() bool {
+	for v := 1; v < o.Vals; v++ {
+		if o.valTy(v) != o.valTy(0) {
+			return true
+		}
+	}
+	return false
+}
+
+// payloadsFor: the payloads of the values of option type ty, in the order they were given
+func (o optSpec) payloadsFor(ty int) []string {
 	var out []string
 	for v := 0; v < o.Vals; v++ {
-		out = append(out, fmt.Sprintf("%s:%s.%d", []string{"A", "B"}[o.Ty], o.ID, v))
+		if o.valTy(v) == ty {
+			out = append(out, fmt.Sprintf("%s:%s.%d", []string{"A", "B"}[ty], o.ID, v))
+		}
 	}
 	return out
 }
@@ -82,6 +112,7 @@ func route(spec *gspec.GraphSpec, opts []optSpec) (map[string][]string, bool, st
 	exp := map[string][]string{}
 	var bad string
 	badOwner = ""
+	subSteps = nil
 	var deliver func(g *gspec.GraphSpec, prefix string, o optSpec, path []string)
 	deliver = func(g *gspec.GraphSpec, prefix string, o optSpec, path []string) {
 		if len(path) == 0 {
@@ -93,8 +124,9 @@ func route(spec *gspec.GraphSpec, opts []optSpec) (map[string][]string, bool, st
 				case n.Sub != nil:
 					deliver(n.Sub, p+"/", o, nil)
 				case n.Kind == gspec.Passthrough:
-				case n.OptType == o.Ty:
-					exp[p] = append(exp[p], o.payloads()...)
+				default:
+					// every value goes to the nodes that take its type, whatever else the Option carries
+					exp[p] = append(exp[p], o.payloadsFor(n.OptType)...)
 				}
 			}
 			return
@@ -106,16 +138,34 @@ func route(spec *gspec.GraphSpec, opts []optSpec) (map[string][]string, bool, st
 			return
 		}
 		p := prefix + n.Key
+		if len(path) == 1 && o.Steps > 0 {
+			// a run-time step limit is an option for graphs: no other node can take it
+			switch {
+			case n.Sub != nil:
+				if subSteps == nil {
+					subSteps = map[string]int{}
+				}
+				subSteps[n.Sub.Name] = o.Steps
+			case n.Kind == gspec.Passthrough:
+				bad = "step-limit-for-passthrough"
+			default:
+				bad = "step-limit-for-component"
+			}
+			return
+		}
 		if len(path) == 1 {
 			switch {
 			case n.Sub != nil:
 				deliver(n.Sub, p+"/", o, nil)
 			case n.Kind == gspec.Passthrough:
 				bad = "option-for-passthrough"
-			case n.OptType != o.Ty:
+			case len(o.payloadsFor(n.OptType)) != o.Vals:
 				bad = "wrong-option-type"
+				if len(o.payloadsFor(n.OptType)) > 0 {
+					bad = "wrong-option-type/one-of-several-values"
+				}
 			default:
-				exp[p] = append(exp[p], o.payloads()...)
+				exp[p] = append(exp[p], o.payloadsFor(n.OptType)...)
 			}
 			return
 		}
@@ -174,11 +224,14 @@ func TestCheck(t *testing.T) {
 }
 
 func genOptions(rng *mon.Rand, inv []nodeInfo, callID string, invalidProb float64) []optSpec {
-	var lambdas, subs, passes []nodeInfo
+	var lambdas, subs, passes, pregelSubs []nodeInfo
 	for _, n := range inv {
 		switch {
 		case n.kind == gspec.Sub:
 			subs = append(subs, n)
+			if n.subMode == gspec.Pregel {
+				pregelSubs = append(pregelSubs, n)
+			}
 		case n.kind == gspec.Passthrough:
 			passes = append(passes, n)
 		default:
@@ -187,11 +240,14 @@ func genOptions(rng *mon.Rand, inv []nodeInfo, callID string, invalidProb float6
 	}
 	k := rng.Intn(7)
 	var out []optSpec
+	haveSteps := false
 	for i := 0; i < k; i++ {
 		o := optSpec{ID: fmt.Sprintf("%s-o%d", callID, i), Ty: rng.Intn(2), Vals: 1 + rng.Intn(2), Base: -1}
+		toGraphs := true // every path (if any) addresses a nested graph as a whole
 		switch r := rng.Intn(10); {
 		case r < 3: // undesignated
 		case r < 8 && len(lambdas) > 0: // designated to 1..3 lambdas of the right type (any depth)
+			toGraphs = false
 			np := 1 + rng.Intn(3)
 			first := lambdas[rng.Intn(len(lambdas))]
 			o.Ty = first.optTy
@@ -209,8 +265,25 @@ func genOptions(rng *mon.Rand, inv []nodeInfo, callID string, invalidProb float6
 		case len(subs) > 0: // designated to a nested graph as a whole
 			o.Paths = append(o.Paths, subs[rng.Intn(len(subs))].path)
 		}
+		if toGraphs && rng.Prob(0.3) {
+			// ONE option with values of both option types, undesignated or designated to a nested graph:
+			// every value reaches the nodes (in that graph) that take its type, and no other node
+			o.Vals = 2 + rng.Intn(3)
+			o.ValTys = make([]int, o.Vals)
+			for v := range o.ValTys {
+				o.ValTys[v] = rng.Intn(2)
+			}
+			w := rng.Intn(o.Vals)
+			o.ValTys[w] = 1 - o.ValTys[(w+1)%o.Vals]
+			o.Ty = o.ValTys[0]
+		}
+		if !haveSteps && len(pregelSubs) > 0 && rng.Prob(0.12) {
+			// a run-time step limit designated to a nested graph applies to that graph (and to nothing else)
+			haveSteps = true
+			o = optSpec{ID: o.ID, Base: -1, Steps: []int{1, 2, 3, 1000}[rng.Intn(4)], Paths: [][]string{pregelSubs[rng.Intn(len(pregelSubs))].path}}
+		}
 		if rng.Prob(invalidProb) {
-			switch rng.Intn(4) {
+			switch rng.Intn(8) {
 			case 0:
 				o.Paths = append(o.Paths, []string{"nope"})
 			case 1:
@@ -224,9 +297,51 @@ func genOptions(rng *mon.Rand, inv []nodeInfo, callID string, invalidProb float6
 					o.Paths = append(o.Paths, append(append([]string(nil), p.path...), "x"))
 				}
 			case 3:
+				if len(lambdas) > 0 && o.Steps == 0 {
+					l := lambdas[rng.Intn(len(lambdas))]
+					o.Ty, o.ValTys = 1-l.optTy, nil
+					o.Paths = [][]string{l.path}
+				}
+			case 4:
+				// a pass-through node (any depth) takes no option at all: designating one to it cannot be
+				// right, whatever the option's type; alone, or before / after valid paths of the same option
+				if len(passes) > 0 {
+					p := passes[rng.Intn(len(passes))]
+					if rng.Bool() {
+						o.Paths = append(o.Paths, p.path)
+					} else {
+						o.Paths = append([][]string{p.path}, o.Paths...)
+					}
+				}
+			case 5:
+				// a step limit is an option for graphs: a lambda cannot take it
 				if len(lambdas) > 0 {
 					l := lambdas[rng.Intn(len(lambdas))]
-					o.Ty = 1 - l.optTy
+					o = optSpec{ID: o.ID, Base: -1, Steps: 1 + rng.Intn(60), Paths: [][]string{l.path}}
+					if len(pregelSubs) > 0 && !haveSteps && rng.Bool() {
+						haveSteps = true
+						o.Paths = append([][]string{pregelSubs[rng.Intn(len(pregelSubs))].path}, o.Paths...)
+						o.Steps = 1000
+					}
+				}
+			case 6:
+				// ... nor can a pass-through node
+				if len(passes) > 0 {
+					p := passes[rng.Intn(len(passes))]
+					o = optSpec{ID: o.ID, Base: -1, Steps: 1 + rng.Intn(60), Paths: [][]string{p.path}}
+				}
+			case 7:
+				// ONE option designated to a lambda, one of whose values is of the other option type (at any
+				// position among the values)
+				if len(lambdas) > 0 && o.Steps == 0 {
+					l := lambdas[rng.Intn(len(lambdas))]
+					o.Ty = l.optTy
+					o.Vals = 2 + rng.Intn(3)
+					o.ValTys = make([]int, o.Vals)
+					for v := range o.ValTys {
+						o.ValTys[v] = l.optTy
+					}
+					o.ValTys[rng.Intn(o.Vals)] = 1 - l.optTy
 					o.Paths = [][]string{l.path}
 				}
 			}
@@ -237,24 +352,68 @@ func genOptions(rng *mon.Rand, inv []nodeInfo, callID string, invalidProb float6
 }
 
 func toOption(o optSpec, bases map[int]compose.Option) compose.Option {
-	var vals []any
-	for v := 0; v < o.Vals; v++ {
-		id := fmt.Sprintf("%s.%d", o.ID, v)
-		if o.Ty == 0 {
-			vals = append(vals, gspec.OptA{ID: id})
-		} else {
-			vals = append(vals, gspec.OptB{ID: id})
+	var opt compose.Option
+	if o.Steps > 0 {
+		opt = compose.WithRuntimeMaxSteps(o.Steps)
+	} else {
+		var vals []any
+		for v := 0; v < o.Vals; v++ {
+			id := fmt.Sprintf("%s.%d", o.ID, v)
+			if o.valTy(v) == 0 {
+				vals = append(vals, gspec.OptA{ID: id})
+			} else {
+				vals = append(vals, gspec.OptB{ID: id})
+			}
 		}
+		opt = compose.WithLambdaOption(vals...)
 	}
-	opt := compose.WithLambdaOption(vals...)
 	for _, p := range o.Paths {
 		opt = opt.DesignateNodeWithPath(compose.NewNodePath(p...))
 	}
 	return opt
 }
 
+// splitOptions: the same call with every option of several values written as one Option per value
+// (same designation): WithLambdaOption(a, b) and WithLambdaOption(a), WithLambdaOption(b) say the same.
+func splitOptions(os []optSpec) []compose.Option {
+	var out []compose.Option
+	for _, o := range os {
+		if o.Steps > 0 || o.Vals <= 1 {
+			out = append(out, toOption(o, nil))
+			continue
+		}
+		for v := 0; v < o.Vals; v++ {
+			id := fmt.Sprintf("%s.%d", o.ID, v)
+			var val any = gspec.OptA{ID: id}
+			if o.valTy(v) == 1 {
+				val = gspec.OptB{ID: id}
+			}
+			opt := compose.WithLambdaOption(val)
+			for _, p := range o.Paths {
+				opt = opt.DesignateNodeWithPath(compose.NewNodePath(p...))
+			}
+			out = append(out, opt)
+		}
+	}
+	return out
+}
+
 // badOwner: path ("a/b") of the nested graph node whose run detects the invalid designation ("" = top level)
 var badOwner string
+
+// subSteps: the step limits the routed options designate to nested graphs (graph name -> limit); nil: none
+var subSteps map[string]int
+
+func refEnv() *gspec.RefEnv {
+	if len(subSteps) == 0 {
+		return nil
+	}
+	m := map[string]int{}
+	for k, v := range subSteps {
+		m[k] = v
+	}
+	return &gspec.RefEnv{SubMaxSteps: m}
+}
 
 type runResult struct {
 	out   gspec.Outcome
@@ -275,7 +434,8 @@ func doCallPara(ctx context.Context, r compose.Runnable[gspec.V, gspec.V], para 
 	return runResult{out: out, execs: execs}
 }
 
-func judge(rep *mon.Reporter, spec *gspec.GraphSpec, in gspec.V, os []optSpec, res runResult, how string) bool {
+// judge: rerun (optional) repeats the call with other options (same input, same paradigm).
+func judge(rep *mon.Reporter, spec *gspec.GraphSpec, in gspec.V, os []optSpec, res runResult, how string, rerun ...func([]compose.Option) runResult) bool {
 	exp, mustFail, why := route(spec, os)
 	wit := map[string]any{"spec": spec, "input": in, "options": os, "how": how}
 	if mustFail {
@@ -293,9 +453,36 @@ func judge(rep *mon.Reporter, spec *gspec.GraphSpec, in gspec.V, os []optSpec, r
 			return false
 		}
 		rep.Count("invalid_designations_rejected", 1)
+		rep.Count("rejected_"+why, 1)
 		return true
 	}
-	ref := gspec.EvalGraph(spec, in, nil)
+	ref := gspec.EvalGraph(spec, in, refEnv())
+	if len(subSteps) > 0 {
+		rep.Count("calls_with_step_limit_designated_to_nested_graph", 1)
+		if ref.Err == "maxsteps" {
+			rep.Count("calls_where_designated_step_limit_stops_nested_graph", 1)
+		}
+	}
+	mixedWhere := ""
+	for _, o := range os {
+		if o.mixed() {
+			if len(o.Paths) == 0 {
+				mixedWhere = "undesignated"
+			} else if mixedWhere == "" {
+				mixedWhere = "designated-to-nested-graph"
+			}
+		}
+	}
+	if mixedWhere != "" {
+		rep.Count("valid_calls_with_one_option_of_two_value_types", 1)
+		if res.out.Failed() && ref.Err == "" && len(rerun) > 0 {
+			// the same call with one Option per value (same designations) says the same thing
+			if res2 := rerun[0](splitOptions(os)); !res2.out.Failed() {
+				rep.Violation(ID+"/one-option-with-values-of-two-types/valid-call-failed/"+mixedWhere, fmt.Sprintf("one compose.Option carries values of both lambda option types (%s); every value is of the option type of some node it addresses, yet the call failed: %v\nthe same call with one Option per value (same designations) succeeds\noptions: %+v", mixedWhere, res.out.Err, os), wit)
+				return false
+			}
+		}
+	}
 	if m := gspec.CompareResult(ref, res.out); m != nil {
 		rep.Violation(ID+"/result/"+m.Class, m.Detail+fmt.Sprintf("\noptions: %+v", os), wit)
 		return false
@@ -362,7 +549,7 @@ func specCase(ctx context.Context, rep *mon.Reporter, rng *mon.Rand, cfg mon.Con
 		res := doCallPara(ctx, r, para, in, opts)
 		rep.AddEvaluations(1)
 		rep.Count("sequential_calls_"+para, 1)
-		if !judge(rep, spec, in, os, res, "sequential/"+para) {
+		if !judge(rep, spec, in, os, res, "sequential/"+para, func(o2 []compose.Option) runResult { return doCallPara(ctx, r, para, in, o2) }) {
 			return
 		}
 		nested := false
@@ -567,7 +754,7 @@ func concurrentCase(ctx context.Context, rep *mon.Reporter, rng *mon.Rand, spec 
 	rep.AddEvaluations(n)
 	rep.Count("concurrent_calls", n)
 	for i := 0; i < n; i++ {
-		if !judge(rep, spec, in, oss[i], results[i], "concurrent") {
+		if !judge(rep, spec, in, oss[i], results[i], "concurrent", func(o2 []compose.Option) runResult { return doCall(ctx, r, in, o2) }) {
 			return
 		}
 	}
